@@ -119,6 +119,8 @@ C07Cases(z) ==
     \cup UNION {Benign(cl, a, ReplyTo(FramingOf(cl), a, <<2, 2>>)) : cl \in Clients, a \in {x \in ReqShapes("m") : x.fc \in {1, 2, 3, 4, 23} /\ InPart(x.fc)}}
     \cup UNION {Benign(cl, a, ReplyTo(FramingOf(cl), a, <<100, 100>>)) : cl \in Clients,
                  a \in {x \in ReqShapes("l") : x.fc \in (IF Thorough THEN {1, 3, 17, 23} ELSE {3, 17}) /\ InPart(x.fc + 1)}}
+    \* the longest reply an ADU can hold (260 bytes TCP / 256 RTU): a server-id reply of 251 payload bytes
+    \cup UNION {Benign(cl, a, ReplyTo(FramingOf(cl), a, <<125, 125>>)) : cl \in Clients, a \in {x \in ReqShapes("l") : x.fc = 17 /\ InPart(2)}}
     \* every residue of the coil quantity modulo 8 (the reply's byte count is a ceiling division)
     \cup UNION {LET ra == Args(fc, 1, 5, q, <<>>, <<>>, 0, 300 + q) rr == ReplyTo(FramingOf(cl), ra, <<1, 0>>) IN BenignOver(cl, ra, rr, CutSetsR(Len(rr))) :
                  cl \in (IF Thorough THEN Clients ELSE {"tcp", "rtu"}), fc \in {1, 2}, q \in {x \in (IF Thorough THEN 2..33 ELSE 2..17) : InPart(x)}}
